@@ -466,6 +466,9 @@ func (p *PoolAllocator) AllocateWithOptions(ctx context.Context, opts AllocateOp
 	p.mu.Lock()
 	defer p.mu.Unlock()
 
+	// A subscriber that already holds an allocation keeps it if re-saving fails
+	heldBefore := p.allocator.Lookup(opts.SubscriberID) != nil
+
 	prefix, err := p.allocator.Allocate(opts.SubscriberID)
 	if err != nil {
 		return nil, err
@@ -484,8 +487,10 @@ func (p *PoolAllocator) AllocateWithOptions(ctx context.Context, opts AllocateOp
 	}
 
 	if err := p.store.SaveAllocation(ctx, record); err != nil {
-		// Rollback allocator state
-		p.allocator.Release(opts.SubscriberID)
+		// Rollback allocator state (only an allocation made by this call)
+		if !heldBefore {
+			p.allocator.Release(opts.SubscriberID)
+		}
 		return nil, fmt.Errorf("failed to persist allocation: %w", err)
 	}
 
@@ -497,11 +502,17 @@ func (p *PoolAllocator) Release(ctx context.Context, subscriberID string) error 
 	p.mu.Lock()
 	defer p.mu.Unlock()
 
-	if err := p.allocator.Release(subscriberID); err != nil {
+	if p.allocator.Lookup(subscriberID) == nil {
+		return p.allocator.Release(subscriberID) // reports ErrNotAllocated
+	}
+
+	// Remove the stored record first: if that fails the allocation is kept,
+	// so allocator and store still agree.
+	if err := p.store.RemoveAllocation(ctx, p.poolID, subscriberID); err != nil {
 		return err
 	}
 
-	return p.store.RemoveAllocation(ctx, p.poolID, subscriberID)
+	return p.allocator.Release(subscriberID)
 }
 
 // Lookup returns the allocation for a subscriber.
